@@ -171,3 +171,15 @@ def c06_roundtrip(pid, v, tier):
 
 
 TEMPLATES["C06.roundtrip"] = c06_roundtrip
+
+
+def c11_decoys(pid, v, tier):
+    ex = v.get("extra") or {}
+    if ex.get("failing_input") is None:
+        return None
+    return {"found": True, "counterexample": {"file_content": ex["failing_input"], "kind": ex.get("kind"), "style": "structured" if ex.get("structured") else "unstructured", "what": ex.get("what")},
+            "native_replay": {"how": "write the content to src/d.rs, Breadlog.yaml with use_cache: false and log_macros [log::info]; run `breadlog -c Breadlog.yaml --check` and the edit", "observed": ex.get("what")},
+            "replay_cmd": None}
+
+
+TEMPLATES["C11.decoys"] = c11_decoys
